@@ -63,46 +63,105 @@ def bindings(p):
     return out
 
 
+def _nominal_interp(ctx):
+    """abstract evaluation of the acceptance relation on symbolic nominal types (distinct atoms are different values)"""
+    from symint import SymInterp
+    from absint import Term, Variant, Obj, Panic, CannotEstablish
+    fit = ctx.syn.fn("Ty::can_fit_into", "hir/src/common/ty.rs")
+    eqv = ctx.syn.fn("Ty::is_functionally_equivalent_to", "hir/src/common/ty.rs")
+
+    class NI(SymInterp):
+        def binop(self, op, l, r, e):
+            if op in ("==", "!="):
+                same = None
+                if isinstance(l, (Term, Variant)) and isinstance(r, (Term, Variant)):
+                    same = l == r
+                elif isinstance(l, list) and isinstance(r, list):
+                    same = l == r
+                if same is not None:
+                    return same == (op == "==")
+            return super().binop(op, l, r, e)
+
+    def run_fit(a, b, depth=0):
+        if depth > 6:
+            raise CannotEstablish("recursion depth")
+        it = NI(methods={"can_fit_into": lambda i, r, args: run_fit(r, args[0], depth + 1),
+                         "is_functionally_equivalent_to": lambda i, r, args: run_eqv(r, args[0], args[1], depth + 1),
+                         "might_be_weak": lambda i, r, args: False, "is_weak_replaceable_by": lambda i, r, args: False,
+                         "is_zero_sized": lambda i, r, args: False})
+        n = fit.param_names()
+        return it.run_fn(fit, {"self": a, n[1]: b})
+
+    def run_eqv(a, b, flag, depth=0):
+        if depth > 6:
+            raise CannotEstablish("recursion depth")
+        it = NI(methods={"is_functionally_equivalent_to": lambda i, r, args: run_eqv(r, args[0], args[1], depth + 1),
+                         "can_fit_into": lambda i, r, args: run_fit(r, args[0], depth + 1),
+                         "zip_eq": lambda i, r, args: list(zip(r, args[0])) if isinstance(r, list) else NotImplemented})
+        n = eqv.param_names()
+        return it.run_fn(eqv, {"self": a, n[1]: b, n[2]: flag})
+    return fit, run_fit
+
+
 def r13a(ctx, run):
-    fn = ctx.syn.fn("Ty::can_fit_into", "hir/src/common/ty.rs")
+    from absint import Term, Variant, Obj, Panic, CannotEstablish
+    fn, run_fit = _nominal_interp(ctx)
     m, rows = tuple_arms(fn)
     F = "Ty::can_fit_into"
+    I32, I64 = Variant("Ty::IInt", {"0": 32}), Variant("Ty::IInt", {"0": 64})
+    name = Term("name")
+
+    def mk(kind, uid, under):
+        if kind == "Distinct":
+            return Variant("Ty::Distinct", {"uid": uid, "sub_ty": under})
+        if kind == "EnumVariant":
+            return Variant("Ty::EnumVariant", {"enum_uid": 50, "variant_name": name, "uid": uid, "sub_ty": under, "discriminant": 0})
+        return Variant("Ty::ConcreteStruct", {"uid": uid, "members": [Term("member", "a", repr(under))]})
+
+    def expect(desc, key, a, b, want, why, ln=None):
+        try:
+            got = run_fit(a, b)
+        except (Panic, CannotEstablish) as c:
+            run.finding(F, key, fn.file, fn.ln, "cannot establish whether %s is accepted: %s" % (desc, getattr(c, "what", c)))
+            return
+        if got is want:
+            run.ok(fn.site(), "%s: %s" % (desc, "accepted" if got else "rejected"))
+        else:
+            run.finding(F, key, fn.file, fn.ln, "%s is %s by can_fit_into: %s" % (desc, "accepted" if got else "rejected", why))
+    for kind in NOMINAL:
+        a = mk(kind, 1, I32)
+        expect("a %s where the same %s is expected" % (kind, kind), "nominal:%s:same" % kind, a, mk(kind, 1, I32), True, "a type must be accepted as itself")
+        expect("a %s where a different %s with the same underlying type is expected" % (kind, kind), "nominal:%s" % kind, a, mk(kind, 2, I32), False,
+               "two nominal types with equal structure are different types (uids differ)")
+        expect("an instantiation of a generic %s where another instantiation (same declaration uid, different underlying type) is expected" % kind,
+               "nominal:%s:instantiation" % kind, a, mk(kind, 1, I64), False,
+               "instantiations of one generic declaration share its uid; with different arguments they are different nominal types")
+    # variant -> its own enum only
+    v = mk("EnumVariant", 1, I32)
+    own = Variant("Ty::Enum", {"uid": 50, "variants": [v, mk("EnumVariant", 2, I64)]})
+    other = Variant("Ty::Enum", {"uid": 51, "variants": [v]})
+    other_inst = Variant("Ty::Enum", {"uid": 50, "variants": [mk("EnumVariant", 1, I64), mk("EnumVariant", 2, I64)]})
+    expect("a variant where its own enum is expected", "variant-to-enum:own", v, own, True, "variant-to-own-enum conversion is the property's stated exception")
+    expect("a variant where a different enum is expected", "variant-to-enum", v, other, False, "a variant fits only its OWN enum")
+    expect("a variant where another instantiation of its generic enum is expected", "variant-to-enum:instantiation", v, other_inst, False,
+           "another instantiation of the enum does not list this variant type")
+    # found-side nominal value where its underlying (or a wider plain) type is expected
+    for kind in ("Distinct", "EnumVariant"):
+        for uname, under, exp in (("i32", I32, I32), ("i32 -> i64", I32, I64), ("u32 -> usize", Variant("Ty::UInt", {"0": 32}), Variant("Ty::UInt", {"0": 255})),
+                                  ("bool", Variant("Ty::Bool"), Variant("Ty::Bool")), ("str", Variant("Ty::String"), Variant("Ty::String"))):
+            expect("a %s over %s where the plain type is expected" % (kind.lower(), uname), "unwrap-found:%s" % kind, mk(kind, 1, under), exp, False,
+                   "the nominal type would be accepted as its underlying type")
+    # struct with a plain member vs anonymous struct etc. are C12 territory; record the arms that exist
     seen = set()
-    for idx, (fp, ep, arm) in enumerate(rows):
+    for fp, ep, arm in rows:
         fh, eh = head(fp), head(ep)
-        body = canon(synq.strip_block(arm["b"]))
         if fh in NOMINAL and eh == fh:
             seen.add(fh)
-            fb, eb = bindings(fp), bindings(ep)
-            only_uid = set(fb.values()) <= {"uid"} and set(eb.values()) <= {"uid"} and len(fb) == 1 and len(eb) == 1
-            a, b = (list(fb) + ["?"])[0], (list(eb) + ["?"])[0]
-            eq = body in ("(%s == %s)" % (a, b), "(%s == %s)" % (b, a))
-            run.check(only_uid and eq, fn.site(arm["ln"]), "(%s, %s) arm: %s" % (fh, eh, body), F, "nominal:%s" % fh, fn.file, arm["ln"],
-                      "the (%s, %s) arm of can_fit_into must be exactly the equality of the two uids; found bindings %s/%s and body %s"
-                      % (fh, eh, fb, eb, body[:120]))
-            # no earlier arm may accept this pair (wildcards on both sides before it)
-            for j in range(idx):
-                pf, pe, parm = rows[j]
-                if head(pf) in ("_",) and head(pe) in ("_",) and parm is not arm:
-                    run.finding(F, "shadow:%s" % fh, fn.file, parm["ln"], "a catch-all arm precedes the nominal (%s, %s) arm" % (fh, eh))
         if fh == "EnumVariant" and eh == "Enum":
             seen.add("EnumVariant->Enum")
-            fb, eb = bindings(fp), bindings(ep)
-            good = set(fb.values()) == {"enum_uid"} and set(eb.values()) == {"uid"} and body in (
-                "(%s == %s)" % (list(fb)[0], list(eb)[0]), "(%s == %s)" % (list(eb)[0], list(fb)[0]))
-            run.check(good, fn.site(arm["ln"]), "(EnumVariant, Enum) arm compares enum_uid with uid", F, "variant-to-enum", fn.file, arm["ln"],
-                      "a variant fits only its OWN enum: arm must be enum_uid == uid; found %s" % body)
-        # a found-side nominal pattern must never hand its sub_ty to a recursive acceptance call
-        if fh in ("Distinct", "EnumVariant"):
-            fb = bindings(fp)
-            for name, field in fb.items():
-                if field in ("sub_ty",) and (name + ".can_fit_into" in body or name + ".is_functionally_equivalent_to" in body or "(%s)" % name in body):
-                    run.finding(F, "unwrap-found:%s" % fh, fn.file, arm["ln"],
-                                "arm (%s, %s) recurses on the found %s's underlying type: the nominal type would be accepted as its underlying type" % (fh, eh, fh))
     for want in NOMINAL + ("EnumVariant->Enum",):
         if want not in seen:
             run.finding(F, "missing:%s" % want, fn.file, m["ln"], "can_fit_into has no identity arm for %s" % want)
-    # early `self == expected` return is fine (reflexive); record it
     first = fn.body["s"][0]
     run.check(first["k"] == "expr" and first["e"]["k"] == "if" and canon(first["e"]["c"]) == "(self == expected)", fn.site(first["ln"]),
               "reflexive early return", F, "reflexive", fn.file, first["ln"], "can_fit_into must accept identical types first")
@@ -312,7 +371,7 @@ def r13f(ctx, run):
 
 def rules(ctx):
     return [
-        Rule("R13.a", "same-kind nominal arms of can_fit_into compare uids only; variant fits only its own enum; no found-side unwrap", 5, r13a),
+        Rule("R13.a", "can_fit_into evaluated on symbolic nominal types: same type accepted; different uid, or same declaration uid with different arguments, rejected; variant fits only its own enum; wrapper never accepted as its underlying type", 20, r13a),
         Rule("R13.b", "fall-through keeps distinction: literal false, guarded (Distinct|EnumVariant, other) arms, flag forwarded", 10, r13b),
         Rule("R13.c", "explicit casts between nominal wrapper and underlying type are accepted in both directions", 5, r13c),
         Rule("R13.d", "distinction-losing equivalence is called only from cast/codegen sites (who-may-call, resolved)", 8, r13d),
